@@ -26,6 +26,10 @@ class C10(TreeCheck):
 
     def derive(self, base, F, rng, tier):
         quick = tier == "quick"
+        m = base["meta"]
+        if m.get("family") == "callback_submits" and (m.get("direction") == "shrink" or not m.get("single")):
+            # these programs dead-lock on the unchanged tree (open findings F26/F26b): every derived case would cost a 40 s stall
+            return explore.derive_Z(rng, 1)
         out = explore.derive_D(F, base, rng, 14 if quick else 200, quals=QUALS, which=("first", "last", "second"))
         # the manager thread lags behind (results and exit announcements pile up) while the resize runs
         out += explore.derive_D(F, base, rng, 4 if quick else 12, quals=["_ExecutorManagerThread.process_result_item", "_ExecutorManagerThread.wait_result_broken_or_wakeup",
